@@ -630,7 +630,7 @@ def main(argv):
         sc.overlay(overlay, getattr(pm, 'HARNESS_FILES', []))
         runner = Runner(sc, prop, tier)
         results = schedule(runner, units, a.jobs)
-        todo = [r for r in results if r.status == "violation" and r.replay]
+        todo = [r for r in results if r.status == "violation" and r.replay and r.unit.engine == "kani"]
         # native replays: sequential, at most VERIF_MAX_REPLAYS (default 3) per run, the others keep the verifier output
         for k, r in enumerate(todo):
             if k < int(os.environ.get("VERIF_MAX_REPLAYS", "3")):
